@@ -9,9 +9,10 @@
    domain of a field; [stored e f v] is the value an accepted assignment stores.
    The tables AlayLayout.* are generated from the current source on every run. *)
 From Coq Require Import String.
-From DS Require Import Base.Prelude Base.Bits Model.Utils.
-From DS Require Import Model.AlayModel Model.AlayWf Model.AlayGolden Gen.AlayLayout.
+From DS Require Import Base.Prelude Base.Bits Model.Utils Model.UtilsF32.
+From DS Require Import Model.AlayModel Model.AlayWf Model.AlayPs Model.AlayGolden Gen.AlayLayout.
 From DS Require Import Proofs.AlayLists Proofs.AlayProofs Proofs.AlayFrame Proofs.AlayInst Proofs.AlayLimits.
+From DS Require Import Proofs.AlayReal32 Proofs.AlayPsProofs.
 
 (* ---------- the tie: generated layout = committed Golden layout ---------- *)
 Theorem C16_gen_is_golden_gs : AlayLayout.gs_table = AlayGolden.gs_table /\ AlayLayout.gs_size = AlayGolden.gs_size.
@@ -84,6 +85,18 @@ Theorem C16_numeric_field_decodes_to_value_assigned : forall size f e b v b',
   canonical e f v -> set e f v b = Some b' -> get f b' = Some v.
 Proof. exact canonical_read_back. Qed.
 Print Assumptions C16_numeric_field_decodes_to_value_assigned.
+
+(* ---------- real32 fields: every representable single is read back exactly ----------
+   [widen32 p] (Model/UtilsF32.v, C09) is the double struct.unpack('!f') yields for the 32-bit pattern
+   p.  For every well-formed real32 field of any table, every block, every p that is not a signalling
+   NaN (infinities, quiet NaNs, subnormals, signed zeros included): the assignment of that double is
+   accepted and the getter returns exactly that double, i.e. narrow (widen p) = p through set / get.
+   (A signalling NaN is quieted by the C cast: C09's recorded finding real32_snan_refuted.) *)
+Theorem C16_real32_field_roundtrip : forall size f, field_ok size f = true -> fkind f = KReal32 ->
+  forall e b p, length b = size -> bytes b -> 0 <= p < 2 ^ 32 -> is_snan32 p = false ->
+  exists b', set e f (VReal (widen32 p)) b = Some b' /\ get f b' = Some (VReal (widen32 p)).
+Proof. exact real32_field_roundtrip. Qed.
+Print Assumptions C16_real32_field_roundtrip.
 
 (* assigning one field changes the value of no other (settable) field of the table *)
 Theorem C16_get_set_other : forall size f g, field_ok size f = true -> field_ok size g = true ->
@@ -163,6 +176,46 @@ Theorem C16_limit_bits_agree : forall e b b', length b = AlayLayout.axis_size ->
 Proof. exact limit_bits_agree. Qed.
 Print Assumptions C16_limit_bits_agree.
 
+(* ---------- PointingStatus.update_status (Model/AlayPs.v) ----------
+   For every pointing block and every input (clock value, axis encoders, start test, table lookup):
+   a completed update_status keeps the size of the block, changes no settable field other than the
+   fifteen it lists (ps_written_names), and leaves every slice of the block that does not meet the
+   bytes of those fifteen fields exactly as it was ([untouched]: decidable disjointness from their
+   extents in the generated table; the rewritable bytes are the 47 of C16_ps_update_written_bytes). *)
+Theorem C16_ps_update_changes_only_listed_fields : forall i b b',
+  length b = AlayLayout.ps_size -> bytes b ->
+  ps_update AlayLayout.ps_table AlayLayout.env_default i b = Some b' ->
+  (length b' = AlayLayout.ps_size /\ bytes b') /\
+  (forall m g, find_field AlayLayout.ps_table m = Some g -> is_view g = false -> ~ In m ps_written_names ->
+     getn AlayLayout.ps_table m b' = getn AlayLayout.ps_table m b) /\
+  (forall o n, untouched AlayLayout.ps_table ps_written_names o n = true -> slice o n b' = slice o n b).
+Proof. exact ps_update_frame. Qed.
+Print Assumptions C16_ps_update_changes_only_listed_fields.
+
+Theorem C16_ps_update_written_bytes :
+  filter (fun k => negb (untouched AlayLayout.ps_table ps_written_names k 1)) (seq 0 AlayLayout.ps_size)
+  = (seq 9 8 ++ seq 28 8 ++ seq 57 8 ++ seq 75 12 ++ seq 95 2 ++ seq 109 12)%list.
+Proof. exact ps_written_bytes. Qed.
+Print Assumptions C16_ps_update_written_bytes.
+
+(* ... and the published encoder positions, pointing offsets and calendar fields are then the values
+   read from the azimuth / elevation status objects and from the ACU clock (mirror the subsystems) *)
+Theorem C16_ps_update_mirrors_axes_and_clock : forall i b b',
+  length b = AlayLayout.ps_size -> bytes b ->
+  ps_update AlayLayout.ps_table AlayLayout.env_default i b = Some b' ->
+  getn AlayLayout.ps_table "posEncAz" b' = Some (VInt (pi_az_p i)) /\
+  getn AlayLayout.ps_table "pointOffsetAz" b' = Some (VInt (pi_az_off i)) /\
+  getn AlayLayout.ps_table "posEncEl" b' = Some (VInt (pi_el_p i)) /\
+  getn AlayLayout.ps_table "pointOffsetEl" b' = Some (VInt (pi_el_off i)) /\
+  getn AlayLayout.ps_table "year" b' = Some (VInt (pi_year i)) /\
+  getn AlayLayout.ps_table "month" b' = Some (VInt (pi_month i)) /\
+  getn AlayLayout.ps_table "day" b' = Some (VInt (pi_day i)) /\
+  getn AlayLayout.ps_table "hour" b' = Some (VInt (pi_hour i)) /\
+  getn AlayLayout.ps_table "minute" b' = Some (VInt (pi_minute i)) /\
+  getn AlayLayout.ps_table "second" b' = Some (VInt (pi_second i)).
+Proof. exact ps_update_mirrors. Qed.
+Print Assumptions C16_ps_update_mirrors_axes_and_clock.
+
 (* ---------- command histories: the recorded mode command is a documented code; subsystems do not
    share status ---------- *)
 Theorem C16_received_mode_documented : forall m,
@@ -221,3 +274,43 @@ Example C16_ex_frame : exists f0 fr, frame0 = Some f0 /\
   frame_update f0 12345 AlayLayout.init_blocks = Some fr /\ length fr = 813%nat /\
   map (@length Z) AlayLayout.init_blocks = block_sizes.
 Proof. eexists. eexists. repeat split; vm_compute; reflexivity. Qed.
+
+(* the real32 theorem is about existing fields: the four real32 motor fields are well formed, and
+   1.5f (0x3FC00000) goes through actual_position unchanged *)
+Example C16_ex_real32 :
+  map fname (filter (fun f => match fkind f with KReal32 => true | _ => false end) AlayLayout.motor_table)
+    = ["actual_position"; "actual_velocity"; "actual_torque"; "rate_of_utilization"]%string /\
+  forallb (fun f => match fkind f with KReal32 => field_ok AlayLayout.motor_size f | _ => true end)
+          AlayLayout.motor_table = true /\
+  match setn AlayLayout.motor_table AlayLayout.env_default "actual_position" (VReal (widen32 1069547520))
+             (repeat 0 AlayLayout.motor_size) with
+  | Some b1 => getn AlayLayout.motor_table "actual_position" b1 = Some (VReal 4609434218613702656) /\
+               slice 0 4 b1 = [0; 0; 192; 63]
+  | None => False
+  end.
+Proof. vm_compute. repeat split; reflexivity. Qed.
+
+(* update_status is defined on the initial pointing block of a System: tracking state 3, table of 8
+   with the lookup at 3 -> index 3, length 5, end index 4; the clock fields are written *)
+Example C16_ex_ps_update :
+  let i := {| pi_year := 2026; pi_month := 3; pi_day := 14; pi_hour := 15; pi_minute := 9; pi_second := 26;
+              pi_mjd := 4678479150791524352; pi_az_p := 180000000; pi_az_off := -5; pi_el_p := 45000000;
+              pi_el_off := 7; pi_before_start := false; pi_index := 3; pi_ntimes := 8 |} in
+  match nth_error AlayLayout.init_blocks 17 with
+  | Some b0 =>
+      match setn AlayLayout.ps_table AlayLayout.env_default "ptState" (VInt 3) b0 with
+      | Some b1 =>
+          match ps_update AlayLayout.ps_table AlayLayout.env_default i b1 with
+          | Some b2 => length b1 = AlayLayout.ps_size /\
+                       getn AlayLayout.ps_table "ptActTableIndex" b2 = Some (VInt 3) /\
+                       getn AlayLayout.ps_table "ptTableLength" b2 = Some (VInt 5) /\
+                       getn AlayLayout.ps_table "ptEndTableIndex" b2 = Some (VInt 4) /\
+                       getn AlayLayout.ps_table "pointOffsetAz" b2 = Some (VInt (-5)) /\
+                       getn AlayLayout.ps_table "ptState" b2 = Some (VInt 3)
+          | None => False
+          end
+      | None => False
+      end
+  | None => False
+  end.
+Proof. vm_compute. repeat split; reflexivity. Qed.
